@@ -134,7 +134,8 @@ CHECKS = {
             "API-level recomputation with the Shot in hand (local speed of sound, Litz/Miller spin drift, twist-0 twin)",
             "Every row the solver creates (range, interpolated, event, terminal, 'second point') passes through a postcondition "
             "with its state in hand: Mach, energy, OGW, target drop, look distance, both adjustments (exactly 0 at x=0), angle, "
-            "windage = z + spin drift, round trips, and the spin drift handed in vs Litz/Miller; returned rows are re-checked "
+            "windage = z + spin drift, round trips, and the spin drift handed in vs Litz/Miller (Sg from the velocity actually "
+            "fired, powder sensitivity on in 30 % of the shots); returned rows are re-checked "
             "against the atmosphere's local speed of sound and a twist-0 twin run.",
             "Energy accepted between the documented constant 450400 and the exact 2*7000*g0; spin-drift clause skipped in vacuum; "
             "zero contract evaluations => inconclusive.",
@@ -142,7 +143,8 @@ CHECKS = {
     "C07": ("differential run of an all-explicit workload under defaults / 3 presets / random slot assignments (bit equality of "
             "every number) + bare-vs-explicit twin construction at every float-or-quantity parameter site (deep snapshots)",
             "(A) random workloads touching every result-producing API with only explicit quantities are re-executed under the "
-            "shipped presets and random assignments of all 15 slots; every number (rows, zero, danger space indices, click "
+            "shipped presets, random assignments of all 15 slots and 'staged sessions' in which the assignment is switched "
+            "between construction / computation steps; every number (rows, zero, danger space indices, click "
             "counts, model tables, atmosphere caches) must be bit-identical to the default run. (B) 42 parameter sites x 8 values "
             "(0, -0.0, negatives, ...) x assignments: bare number vs slot_unit(number) must give equal deep snapshots or the same "
             "exception type.",
@@ -159,7 +161,7 @@ CHECKS = {
             "Only schedules of calculators owned by distinct threads (as stated); interleavings are sampled, not enumerated.",
             "3/C10"),
     "C11": ("metamorphic: same shot/config fired under families of requests, rows at common distances compared",
-            "For each random shot a base request is compared with extra data, longer range, coarser/finer/non-nested/sub-maximum "
+            "For each random shot one long-lived calculator (optionally after a zeroing) serves a base request and variants: extra data, longer range, coarser/finer/non-nested/sub-maximum "
             "steps, time steps and beyond-reach ranges: rows at the same distance agree in 9 columns to 1e-9, subset relations hold, "
             "extra-data output = plain rows + event-flagged rows only.",
             "Rows matched by distance among RANGE-flagged rows; terminal and flag-less 'second point' rows excluded.",
@@ -176,7 +178,8 @@ CHECKS = {
     "C15": ("hooked integration trace (M-STEP) of the very fire under test vs the emitted flagged rows; crossings recomputed from "
             "the trace alone",
             "Random shots (sight above/on/below bore, barrel above/below the line, look +-45 deg, zeroed/un-zeroed, super/trans/"
-            "subsonic, dives that accelerate up through Mach 1, early-ending ranges/limits) fired with extra data: exactly one "
+            "subsonic, dives that accelerate up through Mach 1, lofted low-drag projectiles that fall through Mach 1 twice, "
+            "early-ending ranges/limits) fired with extra data: exactly one "
             "ZERO_UP / ZERO_DOWN row iff the trace crosses the sight line up / then down beyond the muzzle, one MACH row per "
             "falling sonic crossing, each inside its crossing step (time window, distance to the line <= one step x relative slope, "
             "|Mach-1| <= one step's deceleration), time order, HitResult.zeros().",
